@@ -1,1 +1,62 @@
 //! Verification hooks: heap data structures (cargo feature `mmtk_verif`; add-only wrappers).
+//!
+//! Transparent re-exports of crate-private items (the items themselves are `pub`, only their
+//! modules are private), plus the constants of the generic free list.
+
+pub use crate::util::verif_ds_exports::{FreeList, IntArrayFreeList, RawMemoryFreeList};
+pub use crate::util::treadmill::TreadMill;
+
+/// `(FAILURE, MAX_HEADS, MAX_UNITS)` of `util::freelist`.
+pub fn freelist_consts() -> (i32, i32, i32) {
+    use crate::util::verif_ds_exports::*;
+    (FAILURE, MAX_HEADS, MAX_UNITS)
+}
+
+/// `RawMemoryFreeList::new` with the mmap strategy production code uses for it
+/// (`MmapStrategy::RAW_MEMORY_FREELIST`, as in `Map64::create_parent_freelist`).
+pub fn new_raw_memory_freelist(
+    base: crate::util::Address,
+    limit: crate::util::Address,
+    pages_per_block: i32,
+    units: i32,
+    grain: i32,
+    heads: i32,
+) -> RawMemoryFreeList {
+    RawMemoryFreeList::new(
+        base,
+        limit,
+        pages_per_block,
+        units,
+        grain,
+        heads,
+        crate::util::os::MmapStrategy::RAW_MEMORY_FREELIST,
+    )
+}
+
+/// Run the real `Map64::create_parent_freelist(start, units, grain)` on a private `Map64` and
+/// report the parameters it passed to `RawMemoryFreeList::new`:
+/// `(base, limit, max_units, grain, heads, pages_per_block, space_displacement)`.
+/// Nothing is mapped (`RawMemoryFreeList::new` maps nothing until it is grown).
+#[cfg(target_pointer_width = "64")]
+pub fn map64_parent_freelist_params(
+    start: crate::util::Address,
+    units: usize,
+    grain: i32,
+) -> (usize, usize, i32, i32, i32, i32, usize) {
+    let map = crate::util::heap::layout::verif_new_map64();
+    let res = map.create_parent_freelist(start, units, grain);
+    let fl = res
+        .free_list
+        .downcast_ref::<RawMemoryFreeList>()
+        .expect("Map64 creates a RawMemoryFreeList");
+    let (base, limit, _hw, max_units, grain, _cur, ppb, _len) = fl.verif_fields();
+    (
+        base.as_usize(),
+        limit.as_usize(),
+        max_units,
+        grain,
+        fl.heads,
+        ppb,
+        res.space_displacement,
+    )
+}
